@@ -106,7 +106,8 @@ func VH_C08_DecideAsap() {
 }
 
 // VH_C08_RestartFinalized: one process life of 2-3 events out of {view with new precommit
-// numbers, driver finalization, step timer} from a quiet start with a header (this reaches: round
+// numbers, driver finalization, step timer} (quick: 1-2 such views, then the finalization or the
+// timer) from a quiet start with a header (this reaches: round
 // left on a nil quorum, commit of A in round 0 or 1, finalization stored while in commit wait,
 // height advanced), then the process dies and a new state machine comes up on the same stores
 // through the real start-up path, then 1 (quick) / 2 (thorough) events. The rules span both
@@ -121,8 +122,16 @@ func VH_C08_RestartFinalized() {
 		return
 	}
 	e.check(chkC08)
-	kinds := []int{evViewPC, evFinalization, evTimer}
-	e.run(chkC08, kinds, 2+verifrt.Choose("events-before-restart", 2))
+	n := 2 + verifrt.Choose("events-before-restart", 2)
+	if verifrt.Thorough() {
+		e.run(chkC08, []int{evViewPC, evFinalization, evTimer}, n)
+	} else {
+		// quick: views with new precommit numbers first, then the finalization or the timer
+		e.run(chkC08, []int{evViewPC}, n-1)
+		if e.alive {
+			e.run(chkC08, []int{evFinalization, evTimer}, 1)
+		}
+	}
 	if !e.alive {
 		return
 	}
@@ -140,10 +149,10 @@ func VH_C08_RestartFinalized() {
 	if e.cur.r > 0 {
 		verifrt.Reach("C08-restart:restarted-in-a-later-round")
 	}
-	n := 1
+	tail := 1
 	if verifrt.Thorough() {
-		n = 2
+		tail = 2
 	}
-	e.run(chkC08, vhTailEvents, n)
+	e.run(chkC08, vhTailEvents, tail)
 	e.finish()
 }
